@@ -664,6 +664,15 @@ func (ev *Env) call(x *ECall) SVal {
 	if ty := basicTy(x.Fn); ty != nil && ty.K == TInt && len(x.Args) == 1 {
 		return convInt(ev.eval(x.Args[0]), ty)
 	}
+	if ev.W.concreteMode {
+		switch x.Fn {
+		case "fresh", "allocated", "sameslice":
+			// region identities are not observable in a concrete replay: undetermined
+			return SBool{FreshVar("undet", BoolSort)}
+		case "regof", "offof":
+			return SInt{FreshVar("undet", BV(64)), tyInt}
+		}
+	}
 	switch x.Fn {
 	case "old":
 		if len(x.Args) != 1 {
